@@ -70,11 +70,20 @@ def plan(tier, seed):
         target = rnd.choice(("abs", "abs", "rel", "dot", "symlink", "trailing-slash"))      # how the user spells the target directory
         inc = patterns(rnd, files, 2) if rnd.random() < 0.5 else None   # an include with :line restricts the file to that line (C13): name the trigger line
         exc = patterns(rnd, files, 1) if rnd.random() < 0.6 else None   # an exclude with :line must not exclude the file: name a line without a trigger
+        # where the target sits: the path the user types (relative) or its absolute path may itself contain names the default or user patterns mention;
+        # patterns are matched against paths RELATIVE to the target, so none of that may influence the selection
+        under = rnd.choice((None, None, "build/app", "tests/fixtures/app", "lib/site-packages/pkg", "vendor/app", "venv/lib/app", "dist", "src/app")) if k % 3 == 0 else None
+        if under:
+            target = rnd.choice(("rel", "abs", "rel", "trailing-slash", "dotdot"))
+            tp = under.split("/")
+            for lst in (inc, exc):
+                if lst is not None and rnd.random() < 0.6: lst.insert(rnd.randint(0, len(lst)), rnd.choice((tp[0] + "/*", "*/" + tp[-1] + "/*.py", under + "/*", "*" + tp[-1] + "*/m*.py")))
         fs = {}; 
         for rel, trig in files.items():
             fs[rel] = b64(material(mode, trig))
         # symlinks into outside tree
-        fs["link_out.py"] = {"symlink": "../outside/o.py"}; fs["linkdir"] = {"symlink": "../outside/d"}
+        up = "../" * (len(under.split("/")) if under else 1)
+        fs["link_out.py"] = {"symlink": up + "outside/o.py"}; fs["linkdir"] = {"symlink": up + "outside/d"}
         outside = {"outside/o.py": b64(material(mode, True)), "outside/d/p.py": b64(material(mode, True))}
         argv = ["{proj}", "--output", "{out}"]
         rf = {}
@@ -85,7 +94,7 @@ def plan(tier, seed):
         else: argv += ["--codemod-include", "pixee:python/requests-verify" if mode == "semgrep" else "pixee:python/use-set-literal"]
         if inc: argv += ["--path-include", ",".join(inc)]
         if exc: argv += ["--path-exclude", ",".join(exc)]
-        jobs.append({"id": f"t{k}", "files": fs, "outside": outside, "result_files": rf, "argv": argv, "include": inc, "exclude": exc, "sast": sast, "mode": mode, "target": target, "trig": files, "monitors": {"snap": False, "fs": True}})
+        jobs.append({"id": f"t{k}", "files": fs, "outside": outside, "result_files": rf, "argv": argv, "include": inc, "exclude": exc, "sast": sast, "mode": mode, "target": target, "proj_under": under, "trig": files, "monitors": {"snap": False, "fs": True}})
     return jobs
 
 DONTCARE = re.compile(r"(^|/)(conftest\.py|\.coverage.*)$|(^|/)(tests?|__tests?__)/")
@@ -101,7 +110,7 @@ def judge(job, res):
     exp = {rel for rel, trig in job["trig"].items() if trig and rel.endswith(".py") and spec(rel, job["include"], job["exclude"], job["sast"])}
     sel = len(exp); unsel = sum(1 for rel, t in job["trig"].items() if t and rel not in exp)
     if sel and unsel: nt.append(job["id"])
-    w = {"include": job["include"], "exclude": job["exclude"], "sast": job["sast"], "mode": job.get("mode"), "target_spelling": job.get("target"), "changed": sorted(changed), "expected": sorted(exp), "files": job["trig"]}
+    w = {"include": job["include"], "exclude": job["exclude"], "sast": job["sast"], "mode": job.get("mode"), "target_spelling": job.get("target"), "target_placed_under": job.get("proj_under"), "changed": sorted(changed), "expected": sorted(exp), "files": job["trig"]}
     for rel in sorted(changed - exp):
         top_default = not job["exclude"] and not job["sast"] and DONTCARE.search(rel) and not re.match(r"^(tests?)/", rel)
         if top_default: st["dontcare"] += 1; continue
